@@ -32,7 +32,9 @@ def run(ctx):
         F = ctx.facts[cfg]
         E = ctx.eff(cfg)
         vals = nonce.find_validators(ctx, cfg)
-        ctx.floor("validate-shape", len(vals), 1, cfg)
+        # a validator function is optional (the comparison may be written in place); every guarded cipher call is
+        # checked individually below, and their count has its own floor
+        ctx.floor("validate-shape", len(vals), 0, cfg)
         g, r = nonce.check_guarded_cipher_calls(ctx, cfg, vals)
         ctx.floor("nonce-guard", g, 4, cfg)
         ctx.floor("rekey-reserved-nonce", r, 1, cfg)
